@@ -134,6 +134,46 @@ def task_function(shape, rational):
 task_function.contract_fn = "functions.FunctionEvaluator.eval"
 
 
+def task_history(shape):
+    """Histories on one Function object: evaluate, set weights, evaluate, replace weights, evaluate, remove weights, evaluate."""
+    p, mults = shape
+    n = p + 1 + sum(mults)
+    out = []
+    fn = "functions.IndexableFunction.eval"
+    for pos in H.positions(shape)[:2] + H.positions(shape)[-1:]:
+        wn = ["w%d" % i for i in range(n)] + ["v%d" % i for i in range(n)]
+        ctx = H.new_ctx(shape, ["t"] + wn)
+        H.positive(ctx, wn)
+        t = H.constrain_param(ctx, shape, "t", pos)
+        kspec = H.spec_span_of(shape, pos)
+
+        def body(chk, ctx=ctx, t=t, kspec=kspec):
+            U, ks = H.sym_vector(ctx, shape)
+            W1 = [ctx.sym("w%d" % i) for i in range(n)]
+            W2 = [ctx.sym("v%d" % i) for i in range(n)]
+            S0, _ = spec_table(ctx, U, p, p, kspec, t, n, None)
+            S1, d1 = spec_table(ctx, U, p, p, kspec, t, n, W1)
+            S2, d2 = spec_table(ctx, U, p, p, kspec, t, n, W2)
+            ctx.nonzero_elems = [d1.e, d2.e]
+            f = chk.call(functions.Function, list(U))
+            steps = [("fresh", None, S0), ("weights-set-after-evaluation", W1, S1), ("weights-replaced", W2, S2), ("weights-removed", None, S0)]
+            for i, (label, W, S) in enumerate(steps):
+                if i:
+                    chk.call(setattr, f, "weights", W)
+                got = chk.call(f, t)
+                ok = isinstance(got, tuple) and len(got) == n
+                chk.add("history-shape:" + label, ok, "f(u) has npts entries")
+                if ok:
+                    chk.identities("history:" + label, [("f(u)[%d]" % k, got[k], S[k]) for k in range(n)] +
+                                   [("f[:,p](u)[%d]" % k, v, S[k]) for k, v in enumerate(chk.call(lambda: f[:, p](t)))])
+
+        out += H.run_paths(ctx, fn, "S-sym", stag(shape, pos, ",history"), dict(kind="c02.history", shape=shape, pos=pos, rational=True), body)
+    return out
+
+
+task_history.contract_fn = "functions.IndexableFunction.eval"
+
+
 def tasks(tier, seed):
     from ..pyvc.driver import verify
     from ..contracts import misc
@@ -142,6 +182,8 @@ def tasks(tier, seed):
         ts.append((task_function, (sh, False)))
         if tier != "quick" or sh[0] <= 2:
             ts.append((task_function, (sh, True)))
+        if sh[0] <= 2 or tier != "quick":
+            ts.append((task_history, (sh,)))
     return ts
 
 
@@ -153,6 +195,18 @@ def replay(o):
     pos = tuple(w["pos"])
     t = ks[pos[1]] if pos[0] == "knot" else pt["t"]
     W = [pt["w%d" % i] for i in range(n)] if w.get("rational") else None
+    if w["kind"] == "c02.history":
+        W2 = [pt["v%d" % i] for i in range(n)]
+        f = functions.Function(list(U))
+        bad = []
+        for label, Wx in (("fresh", None), ("weights-set-after-evaluation", W), ("weights-replaced", W2), ("weights-removed", None)):
+            if label != "fresh":
+                f.weights = Wx
+            exp = spec.basis(U, p, p, t, Wx)
+            got = f(t)
+            if list(got) != exp:
+                bad.append((label, [str(x) for x in got], [str(x) for x in exp]))
+        return bool(bad), dict(U=U, t=t, W1=W, W2=W2, steps="f(u); set W1; f(u); set W2; f(u); weights=None; f(u)"), bad[:3]
     f = functions.Function(list(U))
     if W:
         f.weights = W
